@@ -65,6 +65,18 @@ def run(prog):
     res.inst("override-before-contains", ok=ok)
     if not ok:
         res.viol("override-before-contains", f.loc, "the repeat path inspects the key list before applying global overrides")
+    # keys without an entry in the per-layer output tables (unmapped keys, transparent fall-through to defsrc) are
+    # handled by the last, table-less lookup; the tables contain the outputs of global overrides, so that lookup has
+    # to ask the override table itself
+    oo = blocks_calling(f, f.reachable(), ["kanata_parser::cfg::key_override::Overrides::output_non_mods_for_input_non_mod"])
+    wk = blocks_calling(f, f.reachable(), ["kanata_state_machine::kanata::output_logic::write_key"])
+    ok = bool(oo) and any(wb in f.reach_from(ob) for ob, _ in oo for wb, _ in wk)
+    res.inst("fallback/override-outputs", ok=ok)
+    res.oblige(ok)
+    if not ok:
+        res.viol("fallback/override-outputs", f.loc,
+                 "the table-less fallback of the repeat path does not consult the global overrides: a key that falls through to its "
+                 "defsrc output and is rewritten by an override is held down but never repeated")
     return res
 
 
